@@ -228,11 +228,28 @@ theorem caller_state_kept (s : Script) (fuel : Nat) (c : Comp) (k : Nat)
     (h : (σ.reg.get? k).isSome = true) : ((run s fuel c σ).1.reg.get? k).isSome = true :=
   run_frame s fuel (stable_present k true) c hc σ h
 
+/-- Nothing else is removed, scope by scope: every scope of the caller's state (also a lower one whose
+entry is shadowed) that holds a `k` before the run holds a `k` after it, if no leaf `remove`s `k` —
+whatever is inserted, set, counted, and however the run ends. -/
+theorem caller_scopes_kept (s : Script) (fuel : Nat) (c : Comp) (k : Nat)
+    (hc : c.sat (Act.keeps k) (fun _ => true) true = true) (σ : St) (i : Nat) (m : Scope)
+    (hi : σ.reg[i]? = some m) (h : m.has k = true) :
+    ∃ m', (run s fuel c σ).1.reg[i]? = some m' ∧ m'.has k = true := by
+  have hq := run_frame s fuel (stable_hasAt k (σ.reg.map (fun m => m.has k)) true) c hc σ (hasAt_self k σ.reg)
+  have hlen : (run s fuel c σ).1.reg.length = σ.reg.length := (scope_discipline s fuel c σ).1
+  obtain ⟨h1, hm⟩ := List.getElem?_eq_some_iff.mp hi
+  have h2 : i < (run s fuel c σ).1.reg.length := by rw [hlen]; exact h1
+  refine ⟨(run s fuel c σ).1.reg[i], List.getElem?_eq_getElem h2, ?_⟩
+  exact HasAt.get hq (by simp [hlen]) i (by simpa using h1) h2 (by simp [hm, h])
+
 /-- State created inside a scope is gone afterwards: a state type absent from the caller's state
-before a scope node is absent after it, whatever the body inserts and however it ends. -/
-theorem scope_locals_gone (s : Script) (fuel : Nat) (b : Comp) (k : Nat) (σ : St)
+before a scope node is absent after it, whatever the body inserts and however it ends — provided no
+hooked scope nested in the body has a merge hook that exports state (`noExports`; trivially true
+for trees built from `Scope::new` / `scope_` only; for the hooked scope itself see
+`hooked_scope_locals_gone`). -/
+theorem scope_locals_gone (s : Script) (fuel : Nat) (b : Comp) (k : Nat) (hb : b.noExports = true) (σ : St)
     (h : σ.reg.get? k = none) : (exec s fuel (.scope b) σ).1.reg.get? k = none :=
-  scope_frame s fuel (stable_absent k true) b (Comp.sat_true b) σ h
+  scope_frame s fuel (stable_absent k true) b hb σ h
 
 /-- Outer state that a scope shadows is restored: inserting `k` inside the scope (any number of
 times, at any depth) never disturbs the caller's `k`; as long as no leaf of the body `set`s or
@@ -296,12 +313,154 @@ theorem scope_without_locals_is_transparent (s : Script) (fuel : Nat) (b : Comp)
     exec s fuel (.scope b) σ = run s fuel b σ :=
   scope_transparent s fuel b hb σ
 
+
+/-! ### Hooked scopes: `Scope::new_with(state_init, body, states_merge)` -/
+
+/-- Lifecycle of a hooked scope. `state_init` runs first, on the fresh child state; if it fails the
+body is not even initialised, the scope is closed and the caller's registry is untouched. Otherwise
+the body's complete lifecycle runs on the child state `state_init` prepared; if that fails, the scope
+is closed, the error is returned and the merge hook is NOT called. Only if it succeeds is the merge
+hook called — once, after the caller's registry has been restored, with the child's own final map —
+and its failure is returned (the scope is closed in either case). -/
+theorem hooked_scope_lifecycle (s : Script) (fuel : Nat) (id : Nat) (si : List Act) (mg : List (Nat × Nat))
+    (b : Comp) (σ : St) :
+    (s.faulty (.init, id) (σ.tr.count (.init, id)) = true →
+      exec s fuel (.scopeW id si mg b) σ = (⟨σ.reg, (.init, id) :: σ.tr⟩, .err .init id)) ∧
+    (s.faulty (.init, id) (σ.tr.count (.init, id)) = false →
+      ∀ σ2 r, run s fuel b ⟨applyActs .init si ([] :: σ.reg), (.init, id) :: σ.tr⟩ = (σ2, r) →
+        (r ≠ .ok → exec s fuel (.scopeW id si mg b) σ = (pop σ2, r)) ∧
+        (r = .ok → s.faulty (.exec, id) (σ2.tr.count (.exec, id)) = true →
+          exec s fuel (.scopeW id si mg b) σ = (⟨σ2.reg.tail, (.exec, id) :: σ2.tr⟩, .err .exec id)) ∧
+        (r = .ok → s.faulty (.exec, id) (σ2.tr.count (.exec, id)) = false →
+          exec s fuel (.scopeW id si mg b) σ =
+            (⟨exportKeys (σ2.reg.headD []) mg σ2.reg.tail, (.exec, id) :: σ2.tr⟩, .ok))) := by
+  refine ⟨fun hf => ?_, fun hf σ2 r hr => ?_⟩
+  · rw [exec_scopeW]
+    simp [step, hf, push, andThen, closeMerge, pop]
+  · rw [exec_scopeW]
+    have h0 : step s (.init, id) (leafEff .init si) (push σ) =
+        (⟨applyActs .init si ([] :: σ.reg), (.init, id) :: σ.tr⟩, .ok) := by
+      simp [step, hf, push, leafEff]
+    rw [h0]
+    simp only [andThen, hr]
+    refine ⟨fun hne => ?_, fun hok hf2 => ?_, fun hok hf2 => ?_⟩
+    · cases r <;> first | exact absurd rfl hne | rfl
+    · subst hok; simp [closeMerge, step, pop, hf2]
+    · subst hok; simp [closeMerge, step, pop, hf2]
+
+/-- What the merge hook delivers: after a hooked scope that ends normally, the caller's registry is
+the restored registry `t` (as the body left the caller's scopes) with, for every `(a, b)` of the
+hook in order, `Kb := v` inserted into its top scope if the child's own map holds `Ka = v`; so under
+every key the caller finds the last such export, and what the body left there otherwise. -/
+theorem merge_exports (s : Script) (fuel : Nat) (id : Nat) (si : List Act) (mg : List (Nat × Nat))
+    (b : Comp) (σ σ' : St) (hne : σ.reg ≠ [])
+    (h : exec s fuel (.scopeW id si mg b) σ = (σ', .ok)) :
+    ∃ σ2 m t, andThen (step s (.init, id) (leafEff .init si) (push σ)) (run s fuel b) = (σ2, .ok) ∧
+      σ2.reg = m :: t ∧ t.length = σ.reg.length ∧ σ'.reg = exportKeys m mg t ∧
+      ∀ k, σ'.reg.get? k = exportedValue m mg k (Reg.get? t k) := by
+  rw [exec_scopeW] at h
+  have hlen : (andThen (step s (.init, id) (leafEff .init si) (push σ)) (run s fuel b)).1.reg.length =
+      σ.reg.length + 1 := by
+    have := exec_scopeW_srun s fuel id si mg b σ
+    rw [exec_scopeW] at this
+    have h2 := srun_depth s fuel (hookBody id si b) (push σ)
+    have e : andThen (step s (.init, id) (leafEff .init si) (push σ)) (run s fuel b) =
+        srun s fuel (hookBody id si b) (push σ) := by
+      simp only [hookBody, srun, opRun, effOf]
+      exact andThen_congr (fun σ0 => run_eq_scopeBody s fuel b σ0)
+    rw [e, h2]; simp [push]
+  cases hx : andThen (step s (.init, id) (leafEff .init si) (push σ)) (run s fuel b) with
+  | mk σ2 r =>
+    rw [hx] at h hlen
+    obtain ⟨reg, tr⟩ := σ2
+    simp only at hlen
+    cases reg with
+    | nil => simp at hlen
+    | cons m t =>
+      have ht : t.length = σ.reg.length := by simpa using hlen
+      have htne : t ≠ [] := ne_nil_of_len ht hne
+      rcases closeMerge_reg s id mg m t tr r with h1 | ⟨hr, _, h1⟩
+      · -- the merge hook (or the closure) failed: contradiction with `ok`
+        cases r with
+        | ok =>
+          simp only [closeMerge, pop, List.tail_cons, List.headD_cons] at h
+          rcases step_cases s (Phase.exec, id) (fun p => some (exportKeys m mg p)) ⟨t, tr⟩ with h' | ⟨r', hr', h'⟩
+          · rw [h'] at h; injection h with _ h; cases h
+          · rw [h'] at h; injection h with h _; subst h
+            injection hr' with hr'; subst hr'
+            exact ⟨_, m, t, rfl, rfl, ht, rfl, fun k => exportKeys_get m mg k t htne⟩
+        | err ph i => simp only [closeMerge] at h; injection h with _ h; cases h
+        | counter => simp only [closeMerge] at h; injection h with _ h; cases h
+        | fuel => simp only [closeMerge] at h; injection h with _ h; cases h
+      · subst hr
+        rw [h] at h1; simp only at h1
+        exact ⟨_, m, t, rfl, rfl, ht, h1, fun k => by rw [h1]; exact exportKeys_get m mg k t htne⟩
+
+/-- State created inside a hooked scope — by `state_init` or by the body — is gone afterwards unless
+the merge hook exports it: a state type absent from the caller's state before, and not a target of
+the merge hook, is absent after, however the scope ends. -/
+theorem hooked_scope_locals_gone (s : Script) (fuel : Nat) (id : Nat) (si : List Act) (mg : List (Nat × Nat))
+    (b : Comp) (k : Nat) (hb : b.noExports = true) (hk : k ∉ mg.map (·.2)) (σ : St)
+    (h : σ.reg.get? k = none) : (exec s fuel (.scopeW id si mg b) σ).1.reg.get? k = none := by
+  refine scopeW_frame s fuel (stable_absent k true) id si mg b (by simp) hb (fun k' v p hk' hq => ?_) σ h
+  have hne : k' ≠ k := fun e => hk (e ▸ hk')
+  by_cases hp : p = []
+  · subst hp; exact hq
+  · rw [Reg.get_insert _ _ _ _ hp]; simp [hne, hq]
+
+/-- Outer state shadowed inside a hooked scope is restored: if neither `state_init` nor a leaf of the
+body `set`s or `remove`s `k` and the merge hook does not export into `k`, the caller's `k` has the
+same value after the scope as before — whatever was inserted under `k` inside. -/
+theorem hooked_shadow_restored (s : Script) (fuel : Nat) (id : Nat) (si : List Act) (mg : List (Nat × Nat))
+    (b : Comp) (k v : Nat) (hk0 : k ≠ 0) (hs : si.all (Act.spares k) = true)
+    (hb : b.sat (Act.spares k) (fun _ => true) true = true) (hk : k ∉ mg.map (·.2)) (σ : St)
+    (h : σ.reg.get? k = some v) : (exec s fuel (.scopeW id si mg b) σ).1.reg.get? k = some v := by
+  refine scopeW_frame s fuel (stable_value k v hk0 true) id si mg b hs hb (fun k' v' p hk' hq => ?_) σ h
+  have hne : k' ≠ k := fun e => hk (e ▸ hk')
+  by_cases hp : p = []
+  · subst hp; exact hq
+  · rw [Reg.get_insert _ _ _ _ hp]; simp [hne, hq]
+
+/-- Counting from zero: a configuration that is one loop (no further loop outside scopes in its body,
+leaves leave `Iterations` alone) ends normally only with `Iterations = n` visible, `n` being the number
+of completed passes — whatever counter the caller's state held before (`Loop::init` inserts a fresh
+`Iterations(0)` into the scope that is current at `init` time). -/
+theorem run_loop_counts_from_zero (s : Script) (fuel : Nat) (c : Cond) (b : Comp)
+    (hb : b.sat Act.offCounter (fun _ => true) true = true) (hl : b.hasLoop = false) (σ σ' : St)
+    (hne : σ.reg ≠ []) (h : run s fuel (.loop c b) σ = (σ', .ok)) :
+    ∃ σ2 n, n < fuel ∧ reqC s (.loop c b) (initC s (.loop c b) σ).1 = (σ2, .ok) ∧
+      Passes (condEval s c) (fun x => andThen (exec s fuel b x) bump) n (condPhase s .cinit c σ2).1 σ' ∧
+      σ'.reg.get? 0 = some n := by
+  simp only [run] at h
+  obtain ⟨σ1, h1, h⟩ := andThen_ok h
+  obtain ⟨σ2, h2, h⟩ := andThen_ok h
+  obtain ⟨n, hn, hp, hc⟩ := loop_counter s fuel c b hb hl σ2 σ' h
+  refine ⟨σ2, n, hn, by rw [h1]; exact h2, hp, ?_⟩
+  rw [hc]
+  have hr2 : σ2.reg = σ1.reg := by have := reqC_reg s (.loop c b) σ1; rw [h2] at this; exact this
+  -- the counter after `init` is 0
+  have h0 : σ1.reg.get? 0 = some 0 := by
+    simp only [initC] at h1
+    obtain ⟨σa, ha, hb1⟩ := andThen_ok h1
+    have hra : σa.reg = (newCounter σ).reg := by
+      have := condPhase_reg s .cinit c (newCounter σ); rw [ha] at this; exact this
+    have := initC_counter_same s b hb hl σa
+    rw [hb1] at this; simp only at this
+    rw [this, hra]
+    simp only [newCounter]
+    rw [Reg.get_insert _ _ _ _ hne]; simp
+  rw [hr2, h0]; simp
+
 /-! Non-vacuity: concrete trees and states satisfying the hypotheses, and the conclusions
 evaluated on them. -/
 
 example : exBody.sat (Act.keeps 1) (fun _ => true) true = true := by decide
 example : exBody.sat (Act.spares 1) (fun _ => true) true = true := by decide
 example : (exState.reg.get? 1).isSome = true := by decide
+-- a shadowed lower entry of the caller survives a run that inserts, sets and loops above it
+example : ([[(2, 1)], [(1, 100), (2, 200)]] : Reg)[1]? = some [(1, 100), (2, 200)] ∧
+    Scope.has [(1, 100), (2, 200)] 2 = true ∧
+    ((run exScript 5 exBody ⟨[[(2, 1)], [(1, 100), (2, 200)]], []⟩).1.reg[1]?.map (fun m => m.has 2)) = some true := by decide
 example : (exec exScript 5 (.scope exBody) exState).1.reg = [[(2, 9), (1, 100)]] := by decide
 example : (exec exScript 5 (.scope exBody) exState).1.reg.get? 0 = none := by decide
 example : (Comp.scope exBody).sat Act.offCounter (fun _ => true) true = true ∧ (Comp.scope exBody).hasLoop = false := by decide
@@ -330,5 +489,36 @@ example : (exec exScript 5 (.loop (.leaf 101) (.leaf 2 [.set .exec 2 9])) { exSt
 example : (run { exScript with fails := [(.init, 1, 0)] } 5 exBody exState).1.trace = [(.init, 1)] := by decide
 example : exScript.faulty (.exec, 2) 0 = false ∧ ({ exScript with fails := [(.cinit, 101, 1)] } : Script).faulty (.cinit, 101) 1 = true := by decide
 example : (run { exScript with fails := [(.cinit, 101, 1)] } 5 exBody exState).2 = .err .cinit 101 := by decide
+
+-- hooked scope: `state_init` inserts K3 = 5 into the child, the body inserts K1 = 7 there and sets the
+-- child's K3 to 6, the merge hook exports K3 as K2 and K1 as K1; the child's own K3 is gone afterwards
+example : (exec exScript 5 exHook exState).1.reg = [[(1, 7), (2, 6)]] ∧ (exec exScript 5 exHook exState).2 = .ok := by
+  decide
+example : (exec exScript 5 exHook exState).1.trace = [(.init, 900), (.init, 1), (.req, 1), (.exec, 1), (.exec, 900)] := by
+  decide
+-- `state_init` fails: the body is not initialised, the caller's registry is untouched, the scope is closed
+example : (exec { exScript with fails := [(.init, 900, 0)] } 5 exHook exState).1.reg = exState.reg ∧
+    (exec { exScript with fails := [(.init, 900, 0)] } 5 exHook exState).1.tr = [(.init, 900)] ∧
+    (exec { exScript with fails := [(.init, 900, 0)] } 5 exHook exState).2 = .err .init 900 := by decide
+-- the body fails: no merge event, nothing exported, the scope is closed
+example : (exec { exScript with fails := [(.exec, 1, 0)] } 5 exHook exState).1.trace.getLast? = some (.exec, 1) ∧
+    (exec { exScript with fails := [(.exec, 1, 0)] } 5 exHook exState).1.reg = exState.reg := by decide
+-- the merge hook fails: its error is the result, nothing exported, the scope is closed
+example : (exec { exScript with fails := [(.exec, 900, 0)] } 5 exHook exState).2 = .err .exec 900 ∧
+    (exec { exScript with fails := [(.exec, 900, 0)] } 5 exHook exState).1.reg = exState.reg := by decide
+example : (Comp.leaf 1 [.ins .exec 1 7, .set .exec 3 6]).noExports = true ∧ 3 ∉ [(3, 2), (1, 1)].map (·.2) := by decide
+example : exState.reg.get? 3 = none ∧ (exec exScript 5 exHook exState).1.reg.get? 3 = none := by decide
+example : [Act.ins .init 3 5].all (Act.spares 2) = true ∧
+    (Comp.leaf 1 [.ins .exec 2 7]).sat (Act.spares 2) (fun _ => true) true = true ∧ 2 ∉ [(3, 3)].map (·.2) := by decide
+example : (exec exScript 5 (.scopeW 900 [.ins .init 3 5] [(3, 3)] (.leaf 1 [.ins .exec 2 7])) exState).1.reg
+    = [[(3, 5), (1, 100), (2, 200)]] := by decide
+example : exportedValue [(1, 7), (3, 6)] [(3, 2), (1, 1)] 2 (some 200) = some 6 := by decide
+-- a hooked scope nested in a plain scope exports into that scope only: the caller never sees it
+example : (exec exScript 5 (.scope exHook) exState).1.reg = exState.reg := by decide
+example : (Comp.scope exHook).noExports = false := by decide
+-- counting from zero although the caller's state held `Iterations = 7`
+example : (run exScript 5 (.loop (.leaf 101) (.leaf 2 [.set .exec 2 9])) { exState with reg := [[(0, 7)]] }).2 = .ok ∧
+    (run exScript 5 (.loop (.leaf 101) (.leaf 2 [.set .exec 2 9])) { exState with reg := [[(0, 7)]] }).1.reg.get? 0 = some 2 := by
+  decide
 
 end MahfModel.Props.C03
